@@ -743,12 +743,16 @@ func init() {
 				add("2x1-btree-2keys", p("threads", 2, "opsper", 1, "pool", 2, "index", 1, "shards", 2, "preempt", 2, "preput", 1), 0)
 				add("2x1-merge", p("threads", 2, "opsper", 1, "pool", 1, "index", 3, "shards", 1, "preempt", 1, "merge", 1, "preput", 1), 0)
 				add("1x2-merge-rotating-writer", p("threads", 1, "opsper", 2, "onlyput", 1, "pool", 2, "index", 3, "shards", 1, "preempt", 2, "merge", 1, "preput", 1, "dfs_lo", 60, "dfs_hi", 60), 0)
+				add("2x1-sync-always", p("threads", 2, "opsper", 1, "pool", 1, "index", 3, "shards", 1, "preempt", 3, "preput", 1, "sync", 1), 0)
+				add("2x1-sync-threshold-btree", p("threads", 2, "opsper", 1, "pool", 1, "index", 1, "shards", 1, "preempt", 2, "preput", 1, "sync", 2), 0)
 			} else {
 				add("2x2-hashmap-p3", p("threads", 2, "opsper", 2, "pool", 1, "index", 3, "shards", 1, "preempt", 3, "preput", 1), 0)
 				add("3x1-skiplist", p("threads", 3, "opsper", 1, "pool", 1, "index", 2, "shards", 1, "preempt", 2, "preput", 1), 0)
 				add("2x2-btree-2keys", p("threads", 2, "opsper", 2, "pool", 2, "index", 1, "shards", 2, "preempt", 2), 0)
 				add("2x1-merge-p2", p("threads", 2, "opsper", 1, "pool", 1, "index", 3, "shards", 1, "preempt", 2, "merge", 1, "preput", 1), 0)
 				add("2x1-merge-rotating-writers", p("threads", 2, "opsper", 1, "pool", 2, "index", 3, "shards", 1, "preempt", 2, "merge", 1, "preput", 1, "dfs_lo", 60, "dfs_hi", 60), 0)
+				add("2x2-sync-always", p("threads", 2, "opsper", 2, "pool", 1, "index", 3, "shards", 1, "preempt", 3, "preput", 1, "sync", 1), 0)
+				add("2x2-sync-threshold-mmap", p("threads", 2, "opsper", 2, "pool", 1, "index", 3, "shards", 1, "preempt", 2, "preput", 1, "sync", 2, "io", 1), 0)
 			}
 			js = append(js, JobSpec{Name: "witness", Harness: "root", Func: "verifHarnessC08", Params: p("threads", 1, "opsper", 1, "pool", 1, "index", 3, "shards", 1, "witness", 1), Scale: scaleDF(32), Witness: true})
 			return js
@@ -757,7 +761,7 @@ func init() {
 			"RWMutex: writer preference (a pending writer blocks new readers)", "schedule violations are not replayed natively (no schedule hooks in the repository): the replay directory holds the schedule as a decision vector for the engine",
 			"linearizability oracle: exists a total order respecting real time in which every Get returns the register's content; found flags concrete per path, values symbolic"},
 		Bounds: map[string]string{
-			"quick":    "2 goroutines x 1-2 operations from {Put(symbolic value), Delete, Get} on 1-2 keys, <= 2-3 preemptions, optional concurrent Merge (<= 1 preemption); history checked for linearizability; at quiescence live dump == dump after Close+Open",
+			"quick":    "2 goroutines x 1-2 operations from {Put(symbolic value), Delete, Get} on 1-2 keys, <= 2-3 preemptions, optional concurrent Merge (<= 1 preemption), SyncStrategy No / Always / Threshold (symbolic BytesPerSync 1..200); history checked for linearizability; at quiescence live dump == dump after Close+Open",
 			"thorough": "3 goroutines x 1, 2 x 2 with 3 preemptions, Merge with 2 preemptions",
 		},
 		Outside: "4..16 clients; more than 3 preemptions; weak-memory effects; the background merge ticker",
